@@ -155,19 +155,17 @@ def fdiv(a, b):
 
 def tdiv(a, b):
     """Division truncating toward zero (b != 0)."""
-    if is_sym(a) or is_sym(b):
-        ea, eb = as_z3_int(a), as_z3_int(b)
-        q = S.floordiv_z3(ea, eb if not isinstance(b, int) else b)
-        r = ea - eb * q
-        # floor -> trunc: if result negative (signs differ) and inexact, add 1
-        return mk(z3.If(z3.And(r != 0, (ea < 0) != (eb < 0)), q + 1, q))
+    # |a| div |b| with the sign of a*b  (the textbook definition; no products of
+    # two unknowns, so the solver stays in linear arithmetic + div/mod)
     q = abs(a) // abs(b)
-    return q if (a < 0) == (b < 0) else -q
+    return ite(iff(a < 0, b < 0), lambda: q, lambda: -q)
 
 
 def trem(a, b):
-    """Remainder of truncating division: a - b*tdiv(a,b)."""
-    return a - b * tdiv(a, b)
+    """Remainder of division truncating toward zero: sgn(a) * (|a| mod |b|)
+    (equivalently a - b*tdiv(a, b); cross-checked concretely in pyvc.selftest)."""
+    r = abs(a) % abs(b)
+    return ite(a < 0, lambda: -r, lambda: r)
 
 
 def chain_spec(k, K, fn):
